@@ -55,11 +55,19 @@ example : claim (some "0") = some false ∧ claim none = some true ∧ claim (so
     hops that hand it on untouched; the members of a class are decorated then and there -/
 def honours (r : Row) : Bool :=
   r.readAt == .decoration && r.untouchedBefore && r.guardIfDisabled && !r.guardIfEnabled && r.returnsReceived && r.passThrough
-    && !r.wrapperAlsoReads && r.membersEager
+    && !r.wrapperAlsoReads && r.membersEager && r.dispatchOnNone
 
 /-- every generated row honours the switch (fails when `is_enabled()` moves into a wrapper, the test is inverted,
     `return f` becomes `return wrapper`, a member decorator is stored in a descriptor and applied on first access, …) -/
 theorem rows_honour : ∀ r ∈ rows, honours r = true := by decide
+
+/-- **nothing but the two decoration-time guards reads the switch**: in the whole library (tests aside) `is_enabled()` is called in
+    `pedantic.decorator` and in `for_all_methods.decorate` only, and nothing outside env_var_logic.py names the variable — the per-call
+    wrappers and everything they reach (`FunctionCall`, the type checks, the check that an instance of a generic class was created with
+    type arguments) cannot look at it -/
+theorem switch_read_only_at_decoration :
+    switchReaders = ["pedantic/decorators/class_decorators.py:for_all_methods.decorate",
+                     "pedantic/decorators/fn_deco_pedantic.py:pedantic.decorator"] := by decide
 
 /-- all seven decorators of the property are in the generated table -/
 theorem rows_cover (d : Deco) : ∃ r, lookup d.name = some r ∧ r ∈ rows := by
@@ -70,23 +78,26 @@ theorem rows_cover (d : Deco) : ∃ r, lookup d.name = some r ∧ r ∈ rows := 
     | some r => exact ⟨r, rfl, List.mem_of_find?_eq_some hl⟩
   cases d <;> exact h _ rfl
 
-theorem honours_fn (r : Row) (h : honours r = true) (enF : Option Bool) (hasDoc : Bool) :
-    applyFnRow r enF false hasDoc = .ok true true .plain := by
+theorem honours_early (r : Row) (h : honours r = true) (t : Target) :
+    r.readAt = .decoration ∧ guardFires r false = true ∧ early r t = .ok true true .plain := by
   simp only [honours, Bool.and_eq_true, beq_iff_eq, Bool.not_eq_true'] at h
-  obtain ⟨⟨⟨⟨⟨⟨⟨h1, h2⟩, h3⟩, _⟩, h5⟩, h6⟩, _⟩, _⟩ := h
-  simp [applyFnRow, h1, guardFires, h3, early, h5, h2, h6]
+  obtain ⟨⟨⟨⟨⟨⟨⟨⟨h1, h2⟩, h3⟩, _⟩, h5⟩, h6⟩, _⟩, _⟩, h9⟩ := h
+  exact ⟨h1, by simp [guardFires, h3], by simp [early, h5, h2, h6, h9]⟩
 
-theorem honours_class (r : Row) (h : honours r = true) (arg : String) (enF : Option Bool) (hasDoc : Bool) :
-    applyClassRow r arg enF false hasDoc = .ok true true .plain := by
-  simp only [honours, Bool.and_eq_true, beq_iff_eq, Bool.not_eq_true'] at h
-  obtain ⟨⟨⟨⟨⟨⟨⟨h1, h2⟩, h3⟩, _⟩, h5⟩, h6⟩, _⟩, _⟩ := h
-  simp [applyClassRow, h1, guardFires, h3, early, h5, h2, h6]
+theorem honours_fn (r : Row) (h : honours r = true) (enF : Option Bool) (t : Target) :
+    applyFnRow r enF false t = .ok true true .plain := by
+  obtain ⟨h1, h2, h3⟩ := honours_early r h t
+  simp [applyFnRow, h1, h2, h3]
 
-theorem honours_opaque (r : Row) (h : honours r = true) (enF : Option Bool) :
-    applyOpaqueRow r enF false = .ok true true .plain := by
-  simp only [honours, Bool.and_eq_true, beq_iff_eq, Bool.not_eq_true'] at h
-  obtain ⟨⟨⟨⟨⟨⟨⟨h1, h2⟩, h3⟩, _⟩, h5⟩, h6⟩, _⟩, _⟩ := h
-  simp [applyOpaqueRow, h1, guardFires, h3, early, h5, h2, h6]
+theorem honours_class (r : Row) (h : honours r = true) (arg : String) (enF : Option Bool) (t : Target) :
+    applyClassRow r arg enF false t = .ok true true .plain := by
+  obtain ⟨h1, h2, h3⟩ := honours_early r h t
+  simp [applyClassRow, h1, h2, h3]
+
+theorem honours_opaque (r : Row) (h : honours r = true) (enF : Option Bool) (t : Target) :
+    applyOpaqueRow r enF false t = .ok true true .plain := by
+  obtain ⟨h1, h2, h3⟩ := honours_early r h t
+  simp [applyOpaqueRow, h1, h2, h3]
 
 /-- **disabled ⇒ identity, whatever the object is**: for all seven decorators, however the decorator was obtained, and for EVERY
     target — functions and classes with or without docstrings, and every object the decorators are not made for (`odd`: no
@@ -100,49 +111,53 @@ theorem disabled_is_identity (d : Deco) (t : Target) (enF : Option Bool) :
   have hh := rows_honour r hm
   simp only [decoOut, hl]
   split
-  · exact honours_opaque r hh _
+  · exact honours_opaque r hh _ _
   · split
     · exact honours_class r hh _ _ _
     · exact honours_fn r hh _ _
 
-example : decoOut .pedanticClassDoc ⟨true, false, true, false⟩ none false = .ok true true .plain := by decide
+example : decoOut .pedanticClassDoc ⟨true, false, true, false, false, false⟩ none false = .ok true true .plain := by decide
 -- an object without source text / a builtin handed to `pedantic`, an Enum handed to `pedantic_class`, a class handed to `pedantic`
-example : decoOut .pedantic ⟨false, false, false, true⟩ none false = .ok true true .plain := by decide
-example : decoOut .pedanticClass ⟨true, false, false, true⟩ (some true) false = .ok true true .plain := by decide
-example : decoOut .pedanticDoc ⟨true, true, true, false⟩ none false = .ok true true .plain := by decide
+example : decoOut .pedantic ⟨false, false, false, true, false, false⟩ none false = .ok true true .plain := by decide
+example : decoOut .pedanticClass ⟨true, false, false, true, false, false⟩ (some true) false = .ok true true .plain := by decide
+example : decoOut .pedanticDoc ⟨true, true, true, false, false, false⟩ none false = .ok true true .plain := by decide
+-- objects whose truth value is False: a callable instance of an empty `list` subclass, a class whose metaclass defines `__len__`
+example : decoOut .pedantic ⟨false, false, false, true, true, false⟩ none false = .ok true true .plain := by decide
+example : decoOut .pedanticDoc ⟨true, false, false, true, true, false⟩ (some true) false = .ok true true .plain := by decide
+example : decoOut .timerClass ⟨true, false, false, true, true, false⟩ none false = .ok true true .plain := by decide
 
 /-- **enabled ⇒ they check**: a missing required docstring is rejected at decoration; otherwise a function decorator
     yields a new object, a class decorator the class itself with replaced members, and in both cases later calls are
     checked (pedantic family) / wrapped (trace, timer) — fixed for good (`frozen`), not consulted again -/
 theorem enabled_checks (d : Deco) (t : Target) (enF : Option Bool) (hk : fits d t = true) :
     decoOut d t enF true =
-      if d.requiresDoc && !t.hasDoc then .raised else .ok d.onClass (!d.onClass) (.frozen d.effect) := by
-  obtain ⟨c, hd, fu, op⟩ := t
+      if d.requiresDoc && !t.hasDoc then .raised else .ok d.onClass (!d.onClass) (.frozen (d.effectOn t)) := by
+  obtain ⟨c, hd, fu, op, fa, ge⟩ := t
   cases op
   · cases d with
-    | forAll i => cases i <;> cases c <;> cases hd <;> first | rfl | cases hk
-    | _ => cases c <;> cases hd <;> first | rfl | cases hk
+    | forAll i => cases i <;> cases c <;> cases hd <;> cases ge <;> first | rfl | cases hk
+    | _ => cases c <;> cases hd <;> cases ge <;> first | rfl | cases hk
   · cases hk
 
 /-- enabled, and the object is not one the decorator is made for: the model claims nothing (and the specification neither) -/
 theorem enabled_opaque_unspecified (d : Deco) (t : Target) (enF : Option Bool) (hk : fits d t = false) :
     decoOut d t enF true = .unspecified := by
-  obtain ⟨c, hd, fu, op⟩ := t
+  obtain ⟨c, hd, fu, op, fa, ge⟩ := t
   cases d with
   | forAll i => cases i <;> cases c <;> cases op <;> first | rfl | cases hk
   | _ => cases c <;> cases op <;> first | rfl | cases hk
 
-example : decoOut .pedantic ⟨false, true, false, false⟩ none true = .ok false true (.frozen .checks) := by decide
-example : decoOut .traceClass ⟨true, false, false, false⟩ none true = .ok true false (.frozen .prints) := by decide
-example : decoOut (.forAll .pedanticDoc) ⟨true, false, true, false⟩ none true = .raised := by decide
-example : fits .pedantic ⟨false, false, false, true⟩ = false ∧ fits .traceClass ⟨false, true, false, false⟩ = false := by decide
+example : decoOut .pedantic ⟨false, true, false, false, false, false⟩ none true = .ok false true (.frozen .checks) := by decide
+example : decoOut .traceClass ⟨true, false, false, false, false, false⟩ none true = .ok true false (.frozen .prints) := by decide
+example : decoOut (.forAll .pedanticDoc) ⟨true, false, true, false, false, false⟩ none true = .raised := by decide
+example : fits .pedantic ⟨false, false, false, true, false, false⟩ = false ∧ fits .traceClass ⟨false, true, false, false, false, false⟩ = false := by decide
 
 /-- the outcome of a decoration in closed form: a function of the switch value *at that moment* only -/
 def closed (d : Deco) (t : Target) (en : Bool) : DecoOut :=
   if !en then .ok true true .plain
   else if !fits d t then .unspecified
   else if d.requiresDoc && !t.hasDoc then .raised
-  else .ok d.onClass (!d.onClass) (.frozen d.effect)
+  else .ok d.onClass (!d.onClass) (.frozen (d.effectOn t))
 
 theorem decoOut_closed (d : Deco) (t : Target) (enF : Option Bool) (en : Bool) :
     decoOut d t enF en = closed d t en := by
@@ -292,7 +307,7 @@ def frozenCall (en : Bool) (d : Deco) (t : Target) (k : CallKind) : Obs :=
   if !en then .called false false false          -- decorated while off: nothing imposed, whatever the object is
   else if !fits d t then .unspecified
   else if d.requiresDoc && !t.hasDoc then .bad
-  else effObs d.effect k
+  else effObs (d.effectOn t) k
 
 theorem callObs_closedMode (d : Deco) (t : Target) (en : Bool) (now : Option Bool) (k : CallKind) :
     callObs (closedMode d t en) now k = frozenCall en d t k := by
@@ -319,6 +334,33 @@ theorem read_at_decoration (s : St) (pre post : List Op) (d : Deco) (t : Target)
     simp [exec, decorate_handles]
   have h2 := exec_preserves _ post _ _ h1
   simp only [step, h2, callObs_closedMode]
+
+/-- **the check for type arguments is decided at decoration, too**: a class that lists `Generic[…]`, decorated by a class decorator of
+    the pedantic family while the switch is on — after ANY history `post` (toggles included), a checked method called on an instance that
+    was created without type arguments is turned away; decorated while the switch is off, it never is -/
+theorem generic_instance_check_read_at_decoration (s : St) (pre post : List Op) (d : Deco) (t : Target)
+    (hd : d.effect = .checks) (hc : d.onClass = true) (hf : fits d t = true) (hg : t.generic = true)
+    (hdoc : (d.requiresDoc && !t.hasDoc) = false) :
+    lastObs s (pre ++ [.decorate d t] ++ post ++ [.call (exec s pre).handles.length .unparamInst])
+      = some (.called (enabledAt (exec s pre).env) false false) := by
+  rw [read_at_decoration]
+  cases hen : enabledAt (exec s pre).env
+  · simp [frozenCall]
+  · simp [frozenCall, hf, hdoc, Deco.effectOn, hd, hc, hg, effObs, CallKind.misuse]
+
+-- a generic class decorated while on; switched off; instance without type arguments: turned away; with type arguments: accepted;
+-- a plain sub class lists no `Generic[…]`: nothing is asked of its instances; decorated while off: nothing is asked at all
+example : run (init none) [.decorate .pedanticClass ⟨true, true, false, false, false, true⟩, .disable, .call 0 .unparamInst, .call 0 .paramInst,
+      .subclass 0, .call 1 .unparamInst, .call 1 .wrongType, .decorate .pedanticClass ⟨true, true, false, false, false, true⟩, .enable,
+      .call 2 .unparamInst]
+    = [.decorated true false, .none, .called true false false, .called false false false, .derived, .called false false false,
+       .called true false false, .decorated true true, .none, .called false false false] := by decide
+example : lastObs (init (some "1")) [.decorate (.forAll .pedantic) ⟨true, true, false, false, false, true⟩, .setenv "0", .call 0 .unparamInst]
+    = some (.called true false false) := by decide
+-- trace_class on a generic class, a non-generic class under pedantic_class: nothing of that kind
+example : run (init none) [.decorate .traceClass ⟨true, true, false, false, false, true⟩, .call 0 .unparamInst,
+      .decorate .pedanticClass ⟨true, true, false, false, false, false⟩, .call 1 .unparamInst]
+    = [.decorated true false, .called false true false, .decorated true false, .called false false false] := by decide
 
 theorem finish_factories (s : St) (o : DecoOut) : (finish s o).1.factories = s.factories := by
   cases o <;> rfl
@@ -380,11 +422,11 @@ theorem read_at_application (s : St) (pre mid post : List Op) (d : Deco) (t : Ta
   have h2 := exec_preserves _ post _ _ h1
   simp only [step, h2, callObs_closedMode]
 
-example : lastObs (init none) [.disable, .factory .pedantic, .enable, .apply 0 ⟨false, true, false, false⟩, .disable, .call 0 .positional]
+example : lastObs (init none) [.disable, .factory .pedantic, .enable, .apply 0 ⟨false, true, false, false, false, false⟩, .disable, .call 0 .positional]
     = some (.called true false false) := by decide
-example : lastObs (init none) [.disable, .decorate .pedanticClass ⟨true, true, false, false⟩, .enable, .call 0 .positional]
+example : lastObs (init none) [.disable, .decorate .pedanticClass ⟨true, true, false, false, false, false⟩, .enable, .call 0 .positional]
     = some (.called false false false) := by decide
-example : lastObs (init (some "0")) [.unsetenv, .decorate .timerClass ⟨true, false, false, false⟩, .disable, .setenv "0", .call 0 .good]
+example : lastObs (init (some "0")) [.unsetenv, .decorate .timerClass ⟨true, false, false, false, false, false⟩, .disable, .setenv "0", .call 0 .good]
     = some (.called false true false) := by decide
 
 /-! ## 3b. the same function object handed to a decorator again -/
@@ -490,9 +532,9 @@ theorem apply_disabled_is_identity (s : St) (k : Nat) (f : Factory) (t : Target)
 
 -- `pedantic` on a function made with `exec` / a builtin / a partial (odd), switched off by `disable_pedantic()` and by the
 -- variable; `pedantic_class` on a function; then on again: not described
-example : run (init none) [.disable, .decorate .pedantic ⟨false, false, false, true⟩, .call 0 .positional, .setenv "0",
-      .decorate .pedanticDoc ⟨false, false, false, true⟩, .decorate .pedanticClass ⟨false, true, false, false⟩, .call 2 .wrongType,
-      .enable, .decorate .pedantic ⟨false, false, false, true⟩, .call 3 .good]
+example : run (init none) [.disable, .decorate .pedantic ⟨false, false, false, true, false, false⟩, .call 0 .positional, .setenv "0",
+      .decorate .pedanticDoc ⟨false, false, false, true, false, false⟩, .decorate .pedanticClass ⟨false, true, false, false, false, false⟩, .call 2 .wrongType,
+      .enable, .decorate .pedantic ⟨false, false, false, true, false, false⟩, .call 3 .good]
     = [.none, .decorated true true, .called false false false, .none, .decorated true true, .decorated true true,
        .called false false false, .none, .unspecified, .unspecified] := by decide
 
@@ -533,14 +575,14 @@ theorem first_result_unaffected_by_redecoration (s : St) (pre mid post : List Op
 
 -- decorate while on, switch off, decorate the same function again: identity, and no checks on the new result;
 -- the first wrapper keeps checking; switch on and decorate a third time: checks
-example : run (init none) [.decorate .pedantic ⟨false, true, false, false⟩, .disable, .redecorate .pedantic 0, .call 1 .wrongType, .call 0 .wrongType,
+example : run (init none) [.decorate .pedantic ⟨false, true, false, false, false, false⟩, .disable, .redecorate .pedantic 0, .call 1 .wrongType, .call 0 .wrongType,
       .enable, .redecorate .pedanticDoc 0, .call 2 .positional]
     = [.decorated false true, .none, .decorated true true, .called false false false, .called true false false,
        .none, .decorated false true, .called true false false] := by decide
-example : run (init (some "0")) [.factory .pedantic, .decorate .pedantic ⟨false, false, false, false⟩, .enable, .reapply 0 0, .call 1 .positional, .call 0 .positional]
+example : run (init (some "0")) [.factory .pedantic, .decorate .pedantic ⟨false, false, false, false, false, false⟩, .enable, .reapply 0 0, .call 1 .positional, .call 0 .positional]
     = [.none, .decorated true true, .none, .decorated false true, .called true false false, .called false false false] := by decide
 -- a class is changed in place by its decorators: handing the same class object in again is outside the model
-example : run (init none) [.decorate .traceClass ⟨true, true, false, false⟩, .redecorate .traceClass 0] = [.decorated true false, .bad] := by decide
+example : run (init none) [.decorate .traceClass ⟨true, true, false, false, false, false⟩, .redecorate .traceClass 0] = [.decorated true false, .bad] := by decide
 
 /-! ## 3c. sub classes of decorated classes: inherited members, reached through the sub class and through its instances -/
 
@@ -551,7 +593,7 @@ def frozenMember (en : Bool) (d : Deco) (t : Target) (m : Member) (v : Via) (k :
   else if !en then .called false false false
   else if !fits d t then .unspecified
   else if d.requiresDoc && !t.hasDoc then .bad
-  else effObsM d.effect m v k
+  else effObsM (d.effectOn t) m v k
 
 theorem callObsM_closedMode (d : Deco) (t : Target) (en : Bool) (now : Option Bool) (m : Member) (v : Via) (k : CallKind)
     (hm : hasMember t m = true) :
@@ -596,30 +638,75 @@ theorem carries_decorate (s : St) (ha : Aligned s) (d : Deco) (t : Target) :
   · have hl : s.handles.length = s.targets.length := ha.symm
     simp [step, decorateNow_targets, hl]
 
+/-- a plain sub class lists no `Generic[…]` itself -/
+def ungeneric (t : Target) : Target := { t with generic := false }
+
+@[simp] theorem ungeneric_idem (t : Target) : ungeneric (ungeneric t) = ungeneric t := rfl
+@[simp] theorem derivedMode_idem (m : Mode) : derivedMode (derivedMode m) = derivedMode m := by
+  cases m with
+  | frozen e => cases e <;> rfl
+  | dynamic e => cases e <;> rfl
+  | _ => rfl
+
+theorem derivedMode_live {m : Mode} (hm : m.live) : (derivedMode m).live := by
+  obtain ⟨h1, h2⟩ := hm
+  cases m with
+  | dead => exact absurd rfl h1
+  | unknown => exact absurd rfl h2
+  | plain => exact ⟨by simp [derivedMode], by simp [derivedMode]⟩
+  | frozen e => cases e <;> exact ⟨by simp [derivedMode], by simp [derivedMode]⟩
+  | dynamic e => cases e <;> exact ⟨by simp [derivedMode], by simp [derivedMode]⟩
+
+/-- the members of a class behave alike whether the class is asked for type arguments or not -/
+theorem callObsM_derived (md : Mode) (now : Option Bool) (m : Member) (v : Via) (k : CallKind) :
+    callObsM (derivedMode md) now m v k = callObsM md now m v k := by
+  cases md with
+  | frozen e => cases e <;> rfl
+  | dynamic e => cases e <;> rfl
+  | _ => rfl
+
+/-- … and so does every call that is not made on an instance created without type arguments -/
+theorem callObs_derived (md : Mode) (now : Option Bool) (k : CallKind) (hk : k ≠ .unparamInst) :
+    callObs (derivedMode md) now k = callObs md now k := by
+  cases md with
+  | frozen e => cases e <;> cases k <;> first | rfl | exact absurd rfl hk
+  | dynamic e => cases e <;> cases k <;> first | rfl | exact absurd rfl hk
+  | _ => rfl
+
+@[simp] theorem hasMember_ungeneric (t : Target) (m : Member) : hasMember (ungeneric t) m = hasMember t m := rfl
+
 /-- **a sub class inherits the decided members**: deriving a class from a live class handle — at any time — yields a handle
-    that carries exactly what its base carries -/
+    that carries exactly what its base carries (the sub class itself lists no `Generic[…]`: nothing is asked of its instances) -/
 theorem carries_subclass (s : St) (ha : Aligned s) (h : Nat) (t : Target) (m : Mode) (hc : Carries s h t m)
     (htc : t.isClass = true) (hto : t.odd = false) (hm : m.live) :
-    (step s (.subclass h)).2 = .derived ∧ Carries (step s (.subclass h)).1 s.handles.length t m := by
+    (step s (.subclass h)).2 = .derived ∧ Carries (step s (.subclass h)).1 s.handles.length (ungeneric t) (derivedMode m) := by
   have hl : s.handles.length = s.targets.length := ha.symm
   obtain ⟨h1, h2⟩ := hc
   obtain ⟨hm1, hm2⟩ := hm
   cases m with
   | dead => exact absurd rfl hm1
   | unknown => exact absurd rfl hm2
-  | plain => exact ⟨by simp [step, h1, h2, htc, hto], by simp [step, h1, h2, htc, hto, push], by simp [step, h1, h2, htc, hto, push, hl]⟩
-  | frozen e => exact ⟨by simp [step, h1, h2, htc, hto], by simp [step, h1, h2, htc, hto, push], by simp [step, h1, h2, htc, hto, push, hl]⟩
-  | dynamic e => exact ⟨by simp [step, h1, h2, htc, hto], by simp [step, h1, h2, htc, hto, push], by simp [step, h1, h2, htc, hto, push, hl]⟩
+  | plain => exact ⟨by simp [step, h1, h2, htc, hto], by simp [step, h1, h2, htc, hto, push], by simp [step, h1, h2, htc, hto, push, hl, ungeneric]⟩
+  | frozen e => exact ⟨by simp [step, h1, h2, htc, hto], by simp [step, h1, h2, htc, hto, push], by simp [step, h1, h2, htc, hto, push, hl, ungeneric]⟩
+  | dynamic e => exact ⟨by simp [step, h1, h2, htc, hto], by simp [step, h1, h2, htc, hto, push], by simp [step, h1, h2, htc, hto, push, hl, ungeneric]⟩
+
+theorem callm_of_carries (s : St) (h : Nat) (t : Target) (md : Mode) (hc : Carries s h t md) (m : Member) (v : Via) (k : CallKind) :
+    (step s (.callm h m v k)).2 = if hasMember t m then callObsM md (isEnabledE s.env) m v k else .bad := by
+  obtain ⟨h1, h2⟩ := hc
+  by_cases hm : hasMember t m = true
+  · simp [step, h1, h2, hm]
+  · have : hasMember t m = false := by simpa using hm
+    simp [step, h1, h2, this]
 
 /-- a member reached through a handle that carries the result of a decoration -/
 theorem callm_carried (s : St) (h : Nat) (d : Deco) (t : Target) (en : Bool) (hc : Carries s h t (closedMode d t en))
     (m : Member) (v : Via) (k : CallKind) :
     (step s (.callm h m v k)).2 = frozenMember en d t m v k := by
-  obtain ⟨h1, h2⟩ := hc
+  rw [callm_of_carries s h t _ hc]
   by_cases hm : hasMember t m = true
-  · simp [step, h1, h2, hm, callObsM_closedMode]
+  · simp [hm, callObsM_closedMode]
   · have : hasMember t m = false := by simpa using hm
-    simp [step, h1, h2, this, frozenMember]
+    simp [this, frozenMember]
 
 theorem call_carried (s : St) (h : Nat) (d : Deco) (t : Target) (en : Bool) (hc : Carries s h t (closedMode d t en)) (k : CallKind) :
     (step s (.call h k)).2 = frozenCall en d t k := by
@@ -641,15 +728,30 @@ theorem exec_descend (s : St) (h : Nat) (segs : List (List Op)) : exec s (descen
   | nil => rfl
   | cons seg rest ih => simp [descendOps, descendEnd, exec_append, exec, ih]
 
+/-- what the last class of a line of descent is described by: the decorated class itself, or a plain sub class of it -/
+def descT : List (List Op) → Target → Target
+  | [], t => t
+  | _ :: _, t => ungeneric t
+
+def descM : List (List Op) → Mode → Mode
+  | [], m => m
+  | _ :: _, m => derivedMode m
+
 theorem carries_descend (s : St) (ha : Aligned s) (h : Nat) (t : Target) (m : Mode) (hc : Carries s h t m)
     (htc : t.isClass = true) (hto : t.odd = false) (hm : m.live) (segs : List (List Op)) :
-    Carries (descendEnd s h segs).1 (descendEnd s h segs).2 t m ∧ Aligned (descendEnd s h segs).1 := by
-  induction segs generalizing s h with
+    Carries (descendEnd s h segs).1 (descendEnd s h segs).2 (descT segs t) (descM segs m) ∧ Aligned (descendEnd s h segs).1 := by
+  induction segs generalizing s h t m with
   | nil => exact ⟨hc, ha⟩
   | cons seg rest ih =>
     have ha1 := exec_aligned s seg ha
     have hc1 := carries_exec hc seg
-    exact ih _ (step_aligned _ _ ha1) _ (carries_subclass _ ha1 h t m hc1 htc hto hm).2
+    have h2 := ih _ (step_aligned _ _ ha1) _ (ungeneric t) (derivedMode m) (carries_subclass _ ha1 h t m hc1 htc hto hm).2 htc hto
+      (derivedMode_live hm)
+    cases rest with
+    | nil => exact h2
+    | cons seg' rest' =>
+      simp only [descT, descM, ungeneric_idem, derivedMode_idem] at h2
+      exact h2
 
 /-- **C09, read at decoration — inherited members, all histories, any depth of inheritance.**  Start in any state with recorded
     targets (e.g. the initial one), run any history `pre`, apply any class decorator of the property to a class (state `s1`: the
@@ -674,11 +776,24 @@ theorem read_at_decoration_inherited (s : St) (ha : Aligned s) (pre post : List 
   have ha1 : Aligned s1 := exec_aligned s pre ha
   have hc := carries_decorate s1 ha1 d t
   have hd := (carries_descend s2 (step_aligned _ _ ha1) _ t _ hc htc hto hlive segs).1
-  exact congrArg some (callm_carried _ _ d t _ (carries_exec hd post) m v k)
+  rw [callm_of_carries _ _ _ _ (carries_exec hd post)]
+  have h1 : hasMember (descT segs t) m = hasMember t m := by cases segs <;> rfl
+  have h2 : ∀ now, callObsM (descM segs (closedMode d t (enabledAt s1.env))) now m v k
+      = callObsM (closedMode d t (enabledAt s1.env)) now m v k := by
+    intro now; cases segs with
+    | nil => rfl
+    | cons _ _ => exact callObsM_derived _ _ _ _ _
+  rw [h1, h2]
+  by_cases hm : hasMember t m = true
+  · simp [hm, callObsM_closedMode]
+  · have : hasMember t m = false := by simpa using hm
+    simp [this, frozenMember]
 
-/-- the same for the plain call of the method `m` of a new instance (`call`) through the last class of the line -/
+/-- the same for the plain call of the method `m` of a new instance (`call`) through the last class of the line — every call kind but
+    the one made on an instance created without type arguments in the module of the class (which exists for the decorated class itself:
+    `read_at_decoration`) -/
 theorem read_at_decoration_inherited_call (s : St) (ha : Aligned s) (pre post : List Op) (segs : List (List Op)) (d : Deco)
-    (t : Target) (k : CallKind) (htc : t.isClass = true) (hto : t.odd = false)
+    (t : Target) (k : CallKind) (htc : t.isClass = true) (hto : t.odd = false) (hk : k ≠ .unparamInst)
     (hlive : (closedMode d t (enabledAt (exec s pre).env)).live) :
     let s1 := exec s pre
     let s2 := (step s1 (.decorate d t)).1
@@ -692,7 +807,12 @@ theorem read_at_decoration_inherited_call (s : St) (ha : Aligned s) (pre post : 
   have ha1 : Aligned s1 := exec_aligned s pre ha
   have hc := carries_decorate s1 ha1 d t
   have hd := (carries_descend s2 (step_aligned _ _ ha1) _ t _ hc htc hto hlive segs).1
-  exact congrArg some (call_carried _ _ d t _ (carries_exec hd post) k)
+  have h1 := (carries_exec hd post).1
+  have h2 : ∀ now, callObs (descM segs (closedMode d t (enabledAt s1.env))) now k = callObs (closedMode d t (enabledAt s1.env)) now k := by
+    intro now; cases segs with
+    | nil => rfl
+    | cons _ _ => exact callObs_derived _ _ _ hk
+  simp only [step, h1, h2, callObs_closedMode]
 
 /-- reaching a member never changes the state (in particular: no decision is taken on first access) — so "used for the first
     time before or after a toggle" cannot matter: two histories that differ only in member calls end in the same state -/
@@ -702,27 +822,27 @@ theorem first_use_is_no_event (s : St) (h : Nat) (m : Member) (v : Via) (k : Cal
 
 -- the missed scenario: class with a class method decorated while on, switch off, class method reached for the first time
 -- through a sub class that was not used before (created before / after the toggle), then on again
-example : run (init none) [.decorate .pedanticClass ⟨true, true, true, false⟩, .subclass 0, .disable, .subclass 0,
+example : run (init none) [.decorate .pedanticClass ⟨true, true, true, false, false, false⟩, .subclass 0, .disable, .subclass 0,
       .callm 1 .classMethod .cls .wrongType, .callm 2 .classMethod .cls .wrongType, .callm 2 .classMethod .inst .positional,
       .enable, .subclass 1, .callm 3 .staticMethod .inst .wrongType, .callm 3 .propGet .inst .wrongType, .callm 3 .propSet .cls .good]
     = [.decorated true false, .derived, .none, .derived, .called true false false, .called true false false, .called true false false,
        .none, .derived, .called true false false, .called true false false, .called false false false] := by decide
 -- decorated while off: nothing is imposed on the sub class either, whatever the switch says later
-example : run (init (some "0")) [.decorate (.forAll .pedantic) ⟨true, true, true, false⟩, .enable, .subclass 0, .callm 1 .classMethod .cls .wrongType,
+example : run (init (some "0")) [.decorate (.forAll .pedantic) ⟨true, true, true, false, false, false⟩, .enable, .subclass 0, .callm 1 .classMethod .cls .wrongType,
       .callm 1 .method .inst .positional]
     = [.decorated true true, .none, .derived, .called false false false, .called false false false] := by decide
 -- hypotheses of `read_at_decoration_inherited` are met by a concrete two-level line of descent
-example : (closedMode .pedanticClassDoc ⟨true, true, true, false⟩ (enabledAt (exec (init none) [.enable]).env)).live := by
+example : (closedMode .pedanticClassDoc ⟨true, true, true, false, false, false⟩ (enabledAt (exec (init none) [.enable]).env)).live := by
   unfold Mode.live; decide
-example : lastObs (init none) ([.enable] ++ [.decorate .pedanticClassDoc ⟨true, true, true, false⟩]
-      ++ descendOps (step (exec (init none) [.enable]) (.decorate .pedanticClassDoc ⟨true, true, true, false⟩)).1 0 [[.disable], [.enable, .disable]]
+example : lastObs (init none) ([.enable] ++ [.decorate .pedanticClassDoc ⟨true, true, true, false, false, false⟩]
+      ++ descendOps (step (exec (init none) [.enable]) (.decorate .pedanticClassDoc ⟨true, true, true, false, false, false⟩)).1 0 [[.disable], [.enable, .disable]]
       ++ [.setenv "0"] ++ [.callm 2 .classMethod .cls .wrongType]) = some (.called true false false) := by decide
 -- a function, or a decoration that raised, has no sub class; a class without the member: `bad`
-example : run (init none) [.decorate .pedantic ⟨false, true, false, false⟩, .subclass 0, .decorate .pedanticClassDoc ⟨true, false, true, false⟩, .subclass 2,
-      .decorate .traceClass ⟨true, true, false, false⟩, .callm 4 .classMethod .cls .good, .callm 4 .method .cls .good]
+example : run (init none) [.decorate .pedantic ⟨false, true, false, false, false, false⟩, .subclass 0, .decorate .pedanticClassDoc ⟨true, false, true, false, false, false⟩, .subclass 2,
+      .decorate .traceClass ⟨true, true, false, false, false, false⟩, .callm 4 .classMethod .cls .good, .callm 4 .method .cls .good]
     = [.decorated false true, .bad, .decoRaised, .bad, .decorated true false, .bad, .called false true false] := by decide
 -- trace / timer / foreign wrappers: class and static methods reached through an instance raise a TypeError (finding of C18)
-example : run (init none) [.decorate .traceClass ⟨true, true, true, false⟩, .subclass 0, .callm 1 .staticMethod .inst .good, .callm 1 .staticMethod .cls .good]
+example : run (init none) [.decorate .traceClass ⟨true, true, true, false, false, false⟩, .subclass 0, .callm 1 .staticMethod .inst .good, .callm 1 .staticMethod .cls .good]
     = [.decorated true false, .derived, .callError, .called false true false] := by decide
 
 /-! ## 4. the model satisfies the specification on every history -/
@@ -910,20 +1030,28 @@ theorem step_sim (s : St) (ss : SSt) (r : Rel s ss) (op : Op) :
             cases sh with
             | identity =>
               subst hm
-              exact ⟨rel_record (some t) (push s .plain, Obs.derived) (spush ss .identity, SObs.exact .derived) (rel_push _ _ _ _ r rfl), rfl⟩
+              exact ⟨rel_record (some { t with generic := false }) (push s .plain, Obs.derived) (spush ss .identity, SObs.exact .derived) (rel_push _ _ _ _ r rfl), rfl⟩
             | active e =>
               subst hm
-              exact ⟨rel_record (some t) (push s (.frozen e), Obs.derived) (spush ss (.active e), SObs.exact .derived) (rel_push _ _ _ _ r rfl), rfl⟩
+              cases e with
+              | checksGeneric =>
+                exact ⟨rel_record (some { t with generic := false }) (push s (.frozen .checks), Obs.derived) (spush ss (.active .checks), SObs.exact .derived) (rel_push _ _ _ _ r rfl), rfl⟩
+              | checks =>
+                exact ⟨rel_record (some { t with generic := false }) (push s (.frozen .checks), Obs.derived) (spush ss (.active .checks), SObs.exact .derived) (rel_push _ _ _ _ r rfl), rfl⟩
+              | prints =>
+                exact ⟨rel_record (some { t with generic := false }) (push s (.frozen .prints), Obs.derived) (spush ss (.active .prints), SObs.exact .derived) (rel_push _ _ _ _ r rfl), rfl⟩
+              | marks =>
+                exact ⟨rel_record (some { t with generic := false }) (push s (.frozen .marks), Obs.derived) (spush ss (.active .marks), SObs.exact .derived) (rel_push _ _ _ _ r rfl), rfl⟩
             | dead =>
               subst hm
-              exact ⟨rel_record (some t) (push s .dead, Obs.bad) (spush ss .dead, SObs.exact .bad) (rel_push _ _ _ _ r rfl), rfl⟩
+              exact ⟨rel_record (some { t with generic := false }) (push s .dead, Obs.bad) (spush ss .dead, SObs.exact .bad) (rel_push _ _ _ _ r rfl), rfl⟩
             | unclaimed =>
               cases m with
-              | dead => exact ⟨rel_record (some t) (push s .dead, Obs.bad) (spush ss .unclaimed, SObs.unclaimed) (rel_push _ _ _ _ r trivial), rfl⟩
-              | unknown => exact ⟨rel_record (some t) (push s .unknown, Obs.unspecified) (spush ss .unclaimed, SObs.unclaimed) (rel_push _ _ _ _ r trivial), rfl⟩
-              | plain => exact ⟨rel_record (some t) (push s .plain, Obs.derived) (spush ss .unclaimed, SObs.unclaimed) (rel_push _ _ _ _ r trivial), rfl⟩
-              | frozen e => exact ⟨rel_record (some t) (push s (.frozen e), Obs.derived) (spush ss .unclaimed, SObs.unclaimed) (rel_push _ _ _ _ r trivial), rfl⟩
-              | dynamic e => exact ⟨rel_record (some t) (push s (.dynamic e), Obs.derived) (spush ss .unclaimed, SObs.unclaimed) (rel_push _ _ _ _ r trivial), rfl⟩
+              | dead => exact ⟨rel_record (some { t with generic := false }) (push s .dead, Obs.bad) (spush ss .unclaimed, SObs.unclaimed) (rel_push _ _ _ _ r trivial), rfl⟩
+              | unknown => exact ⟨rel_record (some { t with generic := false }) (push s .unknown, Obs.unspecified) (spush ss .unclaimed, SObs.unclaimed) (rel_push _ _ _ _ r trivial), rfl⟩
+              | plain => exact ⟨rel_record (some { t with generic := false }) (push s .plain, Obs.derived) (spush ss .unclaimed, SObs.unclaimed) (rel_push _ _ _ _ r trivial), rfl⟩
+              | frozen e => exact ⟨rel_record (some { t with generic := false }) (push s (derivedMode (.frozen e)), Obs.derived) (spush ss .unclaimed, SObs.unclaimed) (rel_push _ _ _ _ r trivial), rfl⟩
+              | dynamic e => exact ⟨rel_record (some { t with generic := false }) (push s (derivedMode (.dynamic e)), Obs.derived) (spush ss .unclaimed, SObs.unclaimed) (rel_push _ _ _ _ r trivial), rfl⟩
           · simp only [hc, Bool.false_eq_true, ↓reduceIte]; exact ⟨dead, rfl⟩
   | callm h m v k =>
     simp only [step, specStep, ← r.tg]
@@ -954,7 +1082,7 @@ theorem run_refines_spec (e0 : Option String) (ops : List Op) :
     agreesAll (run (init e0) ops) (specRun (sinit e0) ops) = true :=
   run_sim (init e0) (sinit e0) ⟨envRel_same _, rfl, by simp [init, sinit, HR], rfl⟩ ops
 
-example : specRun (sinit none) [.disable, .decorate .pedantic ⟨false, false, false, false⟩, .enable, .call 0 .wrongType, .decorate .pedantic ⟨false, true, false, false⟩, .call 1 .wrongType]
+example : specRun (sinit none) [.disable, .decorate .pedantic ⟨false, false, false, false, false, false⟩, .enable, .call 0 .wrongType, .decorate .pedantic ⟨false, true, false, false, false, false⟩, .call 1 .wrongType]
     = [.exact .none, .exact (.decorated true true), .exact .none, .exact (.called false false false), .enabledDeco, .exact (.called true false false)] := by decide
 
 end PedVerif.Switch
